@@ -161,7 +161,7 @@ class QFunction(QToken):
         # Parse arguments
         args = []
         args_str = string[arg_start + 1 : arg_end]
-        while args_str:
+        while args_str.strip():
             (arg_t, arg), args_str = _parse_token(args_str, namespace)
             args.append(arg_t.parse(arg, namespace))
             args_str = args_str.strip()
@@ -229,7 +229,7 @@ class QDict(QToken):
     def parse(string: str, namespace: dict) -> QToken:
         entries_str = string[1:-1]
         d: Dict[str, QToken] = {}
-        while len(entries_str) > 0:
+        while len(entries_str.strip()) > 0:
             entries_str = entries_str.strip()
             if len(d) > 0 and entries_str[0] == ",":
                 entries_str = entries_str[1:]
@@ -240,7 +240,7 @@ class QDict(QToken):
             key = QString.parse(key_str, {}).value
             entries_str = entries_str.strip()
             # Remove :
-            if entries_str[0] != ":":
+            if not entries_str or entries_str[0] != ":":
                 raise QueryParseException("Key in dict is not followed by a :")
             entries_str = entries_str[1:]
             # parse val
@@ -294,7 +294,7 @@ class QList(QToken):
     def parse(string: str, namespace: dict) -> QToken:
         entries_str = string[1:-1]
         ls: List[QToken] = []
-        while len(entries_str) > 0:
+        while len(entries_str.strip()) > 0:
             entries_str = entries_str.strip()
             if len(ls) > 0 and entries_str[0] == ",":
                 entries_str = entries_str[1:]
@@ -347,6 +347,8 @@ def _parse_token(string: str, namespace: dict) -> Tuple[Tuple[Any, str], str]:
     if len(string) == 0:
         return (None, ""), string
     string = string.strip()
+    if len(string) == 0:
+        return (None, ""), string
     token = None
     t = None  # Declare so we can return it
     for t in qtypes:
